@@ -320,8 +320,10 @@ func (c *Cond) Signal() {
 // Pool never recycles under the scheduler and poisons what is Put, so that a use-after-Put shows
 // deterministically instead of depending on allocator luck.
 type Pool struct {
-	real rsync.Pool
-	New  func() any
+	real  rsync.Pool
+	New   func() any
+	stack []any  // Options.PoolRecycle: LIFO of what was Put in this execution
+	gen   uint64 // execution the stack belongs to
 }
 
 func (p *Pool) Get() any {
@@ -333,6 +335,16 @@ func (p *Pool) Get() any {
 			return p.New()
 		}
 		return nil
+	}
+	if vrt.PoolRecycle() {
+		if p.gen != vrt.Gen() {
+			p.stack, p.gen = nil, vrt.Gen()
+		}
+		if n := len(p.stack); n > 0 {
+			x := p.stack[n-1]
+			p.stack = p.stack[:n-1]
+			return x
+		}
 	}
 	if p.New == nil {
 		return nil
@@ -346,6 +358,13 @@ func (p *Pool) Put(x any) {
 		return
 	}
 	if !vrt.Active() {
+		return
+	}
+	if vrt.PoolRecycle() {
+		if p.gen != vrt.Gen() {
+			p.stack, p.gen = nil, vrt.Gen()
+		}
+		p.stack = append(p.stack, x)
 		return
 	}
 	switch b := x.(type) {
